@@ -29,6 +29,8 @@ inductive J
   | null
   | bool (b : Bool)
   | num (i : Int)
+  | real (txt : Str)   -- a JSON number whose text is not a plain integer literal (fraction, exponent, `-0`):
+                       -- never a value of a protocol field, only ever a type error (Model/Dispatcher.lean)
   | str (s : Str)
   | arr (l : List J)
   | obj (l : List (Str × J))
@@ -54,6 +56,8 @@ structure FieldS where
   json : Str
   omitE : Bool
   kind : Kind
+  lo : Int := -9223372036854775808     -- value range of the Go integer type behind `Kind.int`
+  hi : Int := 9223372036854775807      -- (int / int64: 64 bit; uint16: 0 … 65535); unused for other kinds
   deriving DecidableEq, Repr
 
 /-- a field value; `α` = values of the structs one nesting level down -/
